@@ -241,7 +241,9 @@ def path_condition(node, stop=None):
                     g = sibling_guard(sib)
                     if g is not None:
                         local.append(g)
-                if isinstance(parent, ast.If):
+                if parent is stop:
+                    pass        # conditions *inside* the stop node only: its own header is not part of the result
+                elif isinstance(parent, ast.If):
                     local.insert(0, (parent.test, field == 'body', 'if'))
                 elif isinstance(parent, ast.While) and field == 'body':
                     local.insert(0, (parent.test, True, 'while'))
